@@ -1,6 +1,7 @@
 (* C16 — proofs by analysis of the constructors: classification, sign, abs, min/max, fdim,
    copysign/hypot ladders.  Generic in the format. *)
 From Coq Require Import ZArith Bool Lia Reals Lra.
+From Coq Require Import Floats.SpecFloat.
 From Flocq Require Import Core BinarySingleNaN.
 From Tetl Require Import Lib.Base C16.Model C16.Spec.
 Local Open Scope Z_scope.
@@ -26,7 +27,7 @@ Qed.
 
 Lemma fne_self : forall x : fl, fne prec emax x x = is_nan x.
 Proof.
-  intros x. unfold fne, Beqb, SFeqb. rewrite <- Bcompare_correct_SF.
+  intros x. unfold fne, Beqb, SFeqb. change (SFcompare (B2SF x) (B2SF x)) with (Bcompare x x).
   destruct (is_nan x) eqn:Hn.
   - destruct x; try discriminate. reflexivity.
   - rewrite Bcompare_refl_nan by exact Hn. reflexivity.
@@ -34,15 +35,15 @@ Qed.
 
 Lemma Bltb_Bcompare : forall x y : fl,
   Bltb x y = match Bcompare x y with Some Lt => true | _ => false end.
-Proof. intros. unfold Bltb, SFltb. now rewrite Bcompare_correct_SF. Qed.
+Proof. reflexivity. Qed.
 
 Lemma Beqb_Bcompare : forall x y : fl,
   Beqb x y = match Bcompare x y with Some Eq => true | _ => false end.
-Proof. intros. unfold Beqb, SFeqb. now rewrite Bcompare_correct_SF. Qed.
+Proof. reflexivity. Qed.
 
 Lemma Bleb_Bcompare : forall x y : fl,
   Bleb x y = match Bcompare x y with Some Lt | Some Eq => true | _ => false end.
-Proof. intros. unfold Bleb, SFleb. now rewrite Bcompare_correct_SF. Qed.
+Proof. reflexivity. Qed.
 
 Lemma Bcompare_nan_l : forall y : fl, Bcompare (B754_nan : fl) y = None.
 Proof. now intros [ | | | ]. Qed.
@@ -117,7 +118,7 @@ Qed.
 (* the gcem functions fmin/fmax used before commit 9128fcd return the second operand whenever
    the comparison is false, in particular a NaN second operand *)
 Theorem g_min_nan : forall x : fl, g_min prec emax x B754_nan = B754_nan.
-Proof. intros x. unfold g_min, fgt. rewrite Bltb_Bcompare, Bcompare_nan_l. reflexivity. Qed.
+Proof. intros x. unfold g_min, fgt. rewrite Bltb_Bcompare, Bcompare_nan_r. reflexivity. Qed.
 Theorem g_max_nan : forall x : fl, g_max prec emax x B754_nan = B754_nan.
 Proof. intros x. unfold g_max, flt. rewrite Bltb_Bcompare, Bcompare_nan_l. reflexivity. Qed.
 
@@ -155,20 +156,21 @@ Lemma of_Z_m1 : B2R (of_Z prec emax _ _ (-1)) = (-1)%R
   /\ is_finite (of_Z prec emax _ _ (-1)) = true /\ Bsign (of_Z prec emax _ _ (-1)) = true.
 Proof.
   unfold of_Z.
-  generalize (binary_normalize_correct prec emax _ _ mode_NE (-1) 0 false).
+  pose proof (binary_normalize_correct prec emax _ _ mode_NE (-1) 0 false) as Hn.
+  cbv zeta in Hn.
   assert (HF : F2R (Float radix2 (-1) 0) = (-1)%R) by (unfold F2R; simpl; lra).
-  rewrite HF.
+  rewrite HF in Hn.
   assert (Hg : generic_format radix2 (fexp prec emax) (-1)%R).
   { rewrite <- HF. apply generic_format_F2R. intros _.
-    unfold cexp, fexp, FLT_exp, emin. rewrite HF.
+    unfold cexp, fexp, emin. rewrite HF.
     replace (-1)%R with (- bpow radix2 0)%R by (simpl; lra).
     rewrite mag_opp, mag_bpow.
     unfold Prec_gt_0, Prec_lt_emax in *. simpl Fexp. lia. }
-  rewrite round_generic by (auto with typeclass_instances).
-  rewrite Rlt_bool_true.
-  - intros [H1 [H2 H3]]. repeat split; try assumption.
-    rewrite H3. apply Rlt_bool_true. lra.
-  - rewrite Rabs_Ropp, Rabs_R1. change 1%R with (bpow radix2 0). apply bpow_lt.
+  rewrite round_generic in Hn by (auto with typeclass_instances).
+  rewrite Rlt_bool_true in Hn.
+  - destruct Hn as [H1 [H2 H3]]. repeat split; try assumption.
+    rewrite H3. rewrite Rcompare_Lt by lra. reflexivity.
+  - rewrite <- abs_IZR. simpl Z.abs. change 1%R with (bpow radix2 0). apply bpow_lt.
     unfold Prec_gt_0, Prec_lt_emax in *. lia.
 Qed.
 
@@ -202,10 +204,10 @@ Proof.
       apply B2R_Bsign_inj.
       * rewrite H2. now rewrite Hf.
       * reflexivity.
-      * rewrite H1. unfold x. cbn [Babs B2R]. unfold F2R; simpl. rewrite <- Ropp_mult_distr_l.
-        rewrite <- opp_IZR. simpl. lra.
-      * rewrite H3, Hs. 2:{ apply is_finite_not_is_nan. rewrite H2. now rewrite Hf. }
-        reflexivity.
+      * rewrite H1. unfold x. cbn [Babs B2R]. rewrite <- F2R_Zopp. reflexivity.
+      * rewrite H3, Hs; [reflexivity|].
+        change (is_finite x) with true in H2. cbn [andb] in H2. rewrite Hf in H2.
+        destruct (Bmult mode_NE x (of_Z prec emax prec_gt_0_ prec_lt_emax_ (-1))); try discriminate; reflexivity.
     + reflexivity.
 Qed.
 
@@ -252,8 +254,9 @@ Proof.
   - rewrite shiftr_join_bits by lia. now destruct s.
   - rewrite shiftr_join_bits by lia. reflexivity.
   - (* finite: the significand and exponent fields are in range by [bounded] *)
-    cbv zeta.
-    unfold bounded in H. apply andb_prop in H. destruct H as [Hc He].
+    cbv zeta. cbn [Bsign].
+    pose proof H as Hb.
+    unfold bounded in Hb. apply andb_prop in Hb. destruct Hb as [Hc He].
     unfold canonical_mantissa in Hc. apply Zeq_bool_eq in Hc. apply Zle_bool_imp_le in He.
     unfold fexp, FLT_exp, emin in Hc.
     rewrite Digits.Zpos_digits2_pos in Hc.
@@ -272,10 +275,10 @@ Proof.
       assert (Hd2 : d = mw + 1).
       { destruct (Z.eq_dec d (mw + 1)) as [|Hne]; [assumption|exfalso].
         assert (2 ^ d <= 2 ^ mw) by (apply Z.pow_le_mono_r; lia). lia. }
-      rewrite shiftr_join_bits; [now destruct s|lia|].
+      rewrite shiftr_join_bits; [now destruct s|lia|lia|lia|].
       rewrite Hd2 in Hc. lia.
-    + rewrite shiftr_join_bits; [now destruct s| |lia].
-      apply Z.leb_gt in Hn. lia.
+    + apply Z.leb_gt in Hn.
+      rewrite shiftr_join_bits; [now destruct s|lia|lia|lia|lia].
 Qed.
 
 Theorem signbit_fb32_exact : forall x : b32, signbit_fb32 x = spec_signbit 24 128 x.
